@@ -242,7 +242,7 @@ def part_a(L, tier, log, samples):
         (r" as SendStream::send_id$", c_send_id),
         (r" as RecvStream::stop_sending$", eff_stream("stop_sending")),
         (r" as SendStream::reset$", eff_stream("reset")),
-        (r"^HashSet::insert$", c_hashset_insert),
+        (r"^HashSet::insert$|^BTreeSet::insert$|^Vec::push$", c_hashset_insert),
     ] + base_contracts()
     ex = E.make_executor(L, INLINE_COMMON, con, max_unroll=arrivals + 1)
     st = State()
